@@ -298,6 +298,23 @@ def run_task(task):
             a['nets'].append({'name': 'VSS', 'pins': [('u1', 'VSS')], 'wires': [{'layer': 'M2', 'first': (7, 7), 'items': [('p', None, 70), ('v', 'via1', None)]}]})
             def_case(res, {'ast': a})
             def_case(res, {'ast': dict(a, nets=a['nets'][::-1], spnets=a['spnets'][::-1])})
+            # routing that comes back to a layer after a segment on another one (and after a via-only segment): all runs of a layer count
+            a = copy_ast()
+            a['nets'].append({'name': 'zig', 'pins': [('u1', 'A'), ('u2', 'Z')], 'wires': [
+                {'layer': 'M2', 'first': (10, 10), 'items': [('p', 110, None)]},
+                {'layer': 'M3', 'first': (110, 10), 'items': [('p', None, 210), ('v', 'via2', None)]},
+                {'layer': 'M2', 'first': (110, 210), 'items': [('p', 310, None), ('p', None, 410)]},
+                {'layer': 'M3', 'first': (310, 410), 'items': [('v', 'via2', None)]},
+                {'layer': 'M3', 'first': (310, 410), 'items': [('p', 510, None)]},
+                {'layer': 'M2', 'first': (510, 410), 'items': [('p', None, 610)]}]})
+            a['spnets'].append({'name': 'VZZ', 'pins': [('*', 'VZZ')], 'use': 'POWER', 'wires': [
+                {'layer': 'M1', 'width': 60, 'first': (0, 50), 'items': [('p', 900, None)]},
+                {'layer': 'M4', 'width': 80, 'shape': 'STRIPE', 'first': (900, 50), 'items': [('p', None, 950)]},
+                {'layer': 'M1', 'width': 60, 'first': (900, 950), 'items': [('v', 'via1', None)]},
+                {'layer': 'M1', 'width': 40, 'first': (900, 950), 'items': [('p', 100, None)]}]})
+            def_case(res, {'ast': a})
+            def_case(res, {'ast': a, 'layout': 'oneline'})
+            res.count('layer_revisited_cases')
             res.count('shared_net_names')
             a = copy_ast()
             a['nets'][0]['ndr'] = 'rule2'
@@ -355,7 +372,7 @@ def replay(case):
 
 
 def finish(agg, tier):
-    need = ['cases', 'route_cases_special', 'route_cases_regular']
+    need = ['cases', 'route_cases_special', 'route_cases_regular', 'layer_revisited_cases']
     missing = [k for k in need if not agg.counters.get(k)]
     if missing: raise common.HarnessError(f'vacuity guard: {missing} zero')
     return {}
